@@ -10,6 +10,7 @@ import (
 	"hash"
 	"io"
 	"sort"
+	"strconv"
 	"strings"
 
 	"gonum.org/v1/gonum/graph/formats/rdf"
@@ -265,6 +266,22 @@ func runNQuads(c *Ctx) *Violation {
 			}
 			if p.String() != line {
 				return viol("nquads/ParseNQuad/roundtrip", "ParseNQuad(line).String() = %q, line = %q", p.String(), line)
+			}
+			// Parts decodes the lexical form: every ECHAR and UCHAR escape of
+			// the generated terms, against an independent decoder
+			c.Oracle("parts-of-parsed-terms")
+			for _, term := range []rdf.Term{p.Subject, p.Predicate, p.Object, p.Label} {
+				if term.Value == "" {
+					continue
+				}
+				wt, wq, wk, ok := rdfRefParts(term.Value)
+				if !ok {
+					continue
+				}
+				gt, gq, gk, err := term.Parts()
+				if err != nil || gt != wt || gq != wq || gk != wk {
+					return viol("nquads/Term/parts-of-parsed-term", "Term %q: Parts() = (%q, %q, %v, %v), the lexical form decodes to (%q, %q, %v)", term.Value, gt, gq, gk, err, wt, wq, wk)
+				}
 			}
 			return nil
 		}); v != nil {
@@ -1353,4 +1370,105 @@ func rdfNormalTerms(ds []*rdf.Statement) []*rdf.Statement {
 		out[i] = rdfStmt(norm(s.Subject.Value), norm(s.Predicate.Value), norm(s.Object.Value), norm(s.Label.Value))
 	}
 	return out
+}
+
+// rdfRefUnescape decodes the ECHAR and UCHAR escapes of N-Quads
+// (https://www.w3.org/TR/n-quads/#grammar-production-ECHAR), independently of
+// package rdf.
+func rdfRefUnescape(in string) (string, bool) {
+	var b strings.Builder
+	r := []rune(in)
+	for i := 0; i < len(r); i++ {
+		if r[i] != '\\' {
+			b.WriteRune(r[i])
+			continue
+		}
+		i++
+		if i >= len(r) {
+			return "", false
+		}
+		n := 0
+		switch r[i] {
+		case 't':
+			b.WriteByte('\t')
+		case 'b':
+			b.WriteByte('\b')
+		case 'n':
+			b.WriteByte('\n')
+		case 'r':
+			b.WriteByte('\r')
+		case 'f':
+			b.WriteByte('\f')
+		case '"':
+			b.WriteByte('"')
+		case '\'':
+			b.WriteByte('\'')
+		case '\\':
+			b.WriteByte('\\')
+		case 'u':
+			n = 4
+		case 'U':
+			n = 8
+		default:
+			return "", false
+		}
+		if n > 0 {
+			if i+n > len(r)-1 {
+				return "", false
+			}
+			v, err := strconv.ParseUint(string(r[i+1:i+1+n]), 16, 32)
+			if err != nil {
+				return "", false
+			}
+			b.WriteRune(rune(v))
+			i += n
+		}
+	}
+	return b.String(), true
+}
+
+// rdfRefParts splits a valid term's lexical form into text, qualifier and kind.
+func rdfRefParts(v string) (text, qual string, kind rdf.Kind, ok bool) {
+	switch {
+	case strings.HasPrefix(v, "_:"):
+		return v[2:], "", rdf.Blank, true
+	case strings.HasPrefix(v, "<") && strings.HasSuffix(v, ">"):
+		text, ok = rdfRefUnescape(v[1 : len(v)-1])
+		return text, "", rdf.IRI, ok
+	case strings.HasPrefix(v, `"`):
+		// the closing quote is the last unescaped one
+		end := -1
+		for i := 1; i < len(v); i++ {
+			if v[i] == '\\' {
+				i++
+				continue
+			}
+			if v[i] == '"' {
+				end = i
+				break
+			}
+		}
+		if end < 0 {
+			return "", "", 0, false
+		}
+		text, ok = rdfRefUnescape(v[1:end])
+		if !ok {
+			return "", "", 0, false
+		}
+		rest := v[end+1:]
+		switch {
+		case rest == "":
+		case strings.HasPrefix(rest, "@"):
+			qual = rest
+		case strings.HasPrefix(rest, "^^<") && strings.HasSuffix(rest, ">"):
+			qual, ok = rdfRefUnescape(rest[3 : len(rest)-1])
+			if !ok {
+				return "", "", 0, false
+			}
+		default:
+			return "", "", 0, false
+		}
+		return text, qual, rdf.Literal, true
+	}
+	return "", "", 0, false
 }
